@@ -15,6 +15,8 @@ no numerical claim about the results is made here (they are only compared with a
 """
 from __future__ import annotations
 
+import os
+
 import torch
 
 from pbt import gen
@@ -679,6 +681,17 @@ def make_linop_r3(kind, impl, hermitian, A0, d0, counter, n, amap, tree=None):
 
 # =============================================================================================== problems
 
+_DEVNULL = [None]
+
+
+def _quiet_stdout():
+    """documented `verbose=True` options print their progress: send it to the null device (one process-wide handle)"""
+    import contextlib
+    if _DEVNULL[0] is None:
+        _DEVNULL[0] = open(os.devnull, "w")
+    return contextlib.redirect_stdout(_DEVNULL[0])
+
+
 class Problem:
     """one tiny instance of a functional; built fresh for every run"""
 
@@ -760,16 +773,21 @@ def build_fcn_problem(case, counter):
             return (torch.tensor(0.2, dtype=DT),)
         return (y0,)
 
+    xopts = dict(case.get("xopts") or {})      # rarely used documented options of the method (C19: verbose=True, ...)
+
     if functional == "rootfinder":
         def forward():
-            return (optimize.rootfinder(fcn, y0, params=params, method=method, maxiter=maxiter),)
+            with _quiet_stdout():
+                return (optimize.rootfinder(fcn, y0, params=params, method=method, maxiter=maxiter, **xopts),)
     elif functional == "equilibrium":
         def forward():
-            return (optimize.equilibrium(fcn, y0, params=params, method=method, maxiter=maxiter),)
+            with _quiet_stdout():
+                return (optimize.equilibrium(fcn, y0, params=params, method=method, maxiter=maxiter, **xopts),)
     elif functional == "minimize":
         def forward():
             kw = {"step": 0.05} if method in ("gd", "adam") else {}
-            return (optimize.minimize(fcn, y0, params=params, method=method, maxiter=maxiter, **kw),)
+            with _quiet_stdout():
+                return (optimize.minimize(fcn, y0, params=params, method=method, maxiter=maxiter, **kw, **xopts),)
     elif functional == "solve_ivp":
         ts = torch.linspace(0.0, 0.3, int(case.get("nt", 2)), dtype=DT)
         if int(case.get("tsdir", 1)) < 0:
@@ -926,14 +944,18 @@ def build_op_problem(case, counter):
                 kw = {"max_niter": maxiter}
             elif method == "broyden1":
                 kw = {"maxiter": maxiter}
-            return (linalg.solve(mkA(), B, E=E, M=(mkM() if E is not None else None), method=method, **kw),)
+            kw.update(case.get("xopts") or {})
+            with _quiet_stdout():
+                return (linalg.solve(mkA(), B, E=E, M=(mkM() if E is not None else None), method=method, **kw),)
     else:
         neig = int(case.get("neig", 1))
         mode = case.get("mode", "lowest")
 
         def forward():
             kw = {"max_niter": maxiter} if method == "davidson" else {}
-            evals, evecs = linalg.symeig(mkA(), neig=neig, mode=mode, M=mkM(), method=method, **kw)
+            kw.update(case.get("xopts") or {})
+            with _quiet_stdout():
+                evals, evecs = linalg.symeig(mkA(), neig=neig, mode=mode, M=mkM(), method=method, **kw)
             # eigenvector sign is irrelevant here: the same call is compared with itself only
             return (evals, evecs)
     pb.forward = forward
